@@ -13,6 +13,7 @@ import (
 	"github.com/free5gc/go-upf/internal/verif/c16"
 	"github.com/free5gc/go-upf/internal/verif/c19"
 	"github.com/free5gc/go-upf/internal/verif/c20"
+	"github.com/free5gc/go-upf/internal/verif/e3host"
 	"github.com/free5gc/go-upf/internal/verif/fworld"
 	"github.com/free5gc/go-upf/internal/verif/pworld"
 	"github.com/free5gc/go-upf/internal/verif/seqx"
@@ -37,6 +38,7 @@ var checks = map[string]func(tier string){
 	"C14": c14.Run,
 	"C15": pworld.Run,
 	"C16": c16.Run,
+	"C18": e3host.RunC18,
 	"C19": c19.Run,
 	"C20": c20.Run,
 }
